@@ -4,7 +4,8 @@
 stdin : {"mode": "tables"}                      -> the quadrature tables of the CURRENT source + numpy's line rules
         {"mode": "run", "cyls": [...], "trans": [...]}
   cyl   = {"axis": [hex]*3, "base": [hex]*3, "r": hex, "h": hex, "unit": "mm"|"m",
-           "rays": [{"s": [hex]*3, "n": [hex]*3}], "kinds": ["cheap", ...]}
+           "rays": [{"s": [hex]*3, "n": [hex]*3}], "kinds": ["cheap", ...],
+           "scalar_idx": [indices of rays to evaluate again one at a time with 0-d operands] (optional)}
   trans = {"cyl": cyl-without-rays, "kind": str, "sigma_s": hex, "sigma_a": hex, "density": hex   (mm^2, mm^2, 1/mm^3),
            "wavelengths": [hex] (angstrom), "beam": [hex]*3, "dets": [[hex]*3], "det_unit": "m"|"mm",
            "variants": [{"M": [[hex]*3]*3, "tr": [hex]*3} | {"flip": true}]}
@@ -75,6 +76,10 @@ def run_cyl(c):
             i = len(rays) // 2
             L1 = cyl.beam_intersection(sc.vector(uh(rays[i]['s']), unit=u), sc.vector(uh(rays[i]['n'])))
             out['L_scalar_check'] = [i, fh(L1.value)]
+            out['L_scalar_checks'] = []
+            for i in c.get('scalar_idx', []):
+                L1 = cyl.beam_intersection(sc.vector(uh(rays[i]['s']), unit=u), sc.vector(uh(rays[i]['n']))).value
+                out['L_scalar_checks'].append([i, fh(L1) if math.isfinite(L1) else repr(float(L1))])
         out['quad'] = {}
         for kind in c.get('kinds', []):
             p, w = cyl.quadrature(kind)
